@@ -122,14 +122,21 @@ func c02Reply(fn byte) (*vDriver, *uhppote, uint32, []byte) {
 		id0 := nondetSerial("earlier.id")
 		verifAssume(r0[0] == 0x17 && r0[1] == fn && specGet32(r0, 4) == id0)
 		d.seq = [][]byte{r0}
-		c02Earlier(u, id0)
+		verifAssume(c02Earlier(u, id0) == nil) // the earlier call succeeded (its leftovers are what matters)
 		d.seq = [][]byte{r}
 		d.calls = 0
+		if c02Narrow != nil {
+			c02Narrow(r)
+		}
 	}
 	return d, u, id, r
 }
 
-var c02Earlier func(u *uhppote, id uint32)
+var c02Earlier func(u *uhppote, id uint32) error
+
+// c02Narrow: optional restriction of the current reply in the 'twice' harnesses (keeps the number of heap
+// shapes small when leftovers of the earlier call make pointer fields differ)
+var c02Narrow func(r []byte)
 
 // specStatus: classification of a 64-byte status / event payload (GetStatus reply layout, appendix A).
 type specStatus struct {
